@@ -1007,14 +1007,44 @@ func createSecureFileSteps() []string {
 	return steps
 }
 
-// saveShape checks key.Save: `if secure { fd = fs.CreateSecureFile(p) } else { fd = os.Create(p) }` … Encode(t.TOML()).
-func saveShape() (secureCreator, plainCreator string) {
+// saveShape checks key.Save. Two shapes are recognised (anything else is fatal):
+//
+//	in place:      `if secure { fd = fs.CreateSecureFile(filePath) } else { fd = os.Create(filePath) }` … return Encode(t.TOML())
+//	atomic rename: `tmpPath := filePath + tmpExtension`, the same two creators applied to tmpPath, `err = Encode(t.TOML())`,
+//	               and afterwards exactly one `os.Rename(tmpPath, filePath)`; `os.Remove(tmpPath)` is the only other os call
+//
+// target is the text of the path the creators are applied to ("filePath" or "filePath+tmpExtension"); renamed tells
+// whether the file written is moved over filePath afterwards.
+func saveShape() (secureCreator, plainCreator, target string, renamed bool) {
 	fd := findFunc("common/key", "", "Save")
 	ps := fd.Type.Params.List
 	if len(ps) != 3 || ps[0].Names[0].Name != "filePath" || ps[2].Names[0].Name != "secure" {
 		die("key.Save: unexpected parameters")
 	}
-	var encodePos, ifPos token.Pos
+	// the one local that may stand for a path: tmpPath := filePath + tmpExtension
+	pathVar := "filePath"
+	target = "filePath"
+	if len(fd.Body.List) > 0 {
+		if as, ok := fd.Body.List[0].(*ast.AssignStmt); ok && as.Tok == token.DEFINE && len(as.Lhs) == 1 && len(as.Rhs) == 1 &&
+			exprString(as.Lhs[0]) == "tmpPath" {
+			if exprString(as.Rhs[0]) != "filePath+tmpExtension" {
+				die("key.Save: tmpPath is %s, expected filePath + tmpExtension", exprString(as.Rhs[0]))
+			}
+			pathVar, target = "tmpPath", "filePath+tmpExtension"
+		}
+	}
+	// tmpPath is never reassigned
+	ast.Inspect(fd.Body, func(n ast.Node) bool {
+		if as, ok := n.(*ast.AssignStmt); ok {
+			for i, l := range as.Lhs {
+				if nm := exprString(l); (nm == "tmpPath" && !(as.Tok == token.DEFINE && i == 0 && as == fd.Body.List[0])) || nm == "filePath" {
+					die("key.Save: %s is assigned to", nm)
+				}
+			}
+		}
+		return true
+	})
+	var encodePos, ifPos, renamePos token.Pos
 	for _, st := range fd.Body.List {
 		ifs, ok := st.(*ast.IfStmt)
 		if ok && exprString(ifs.Cond) == "secure" {
@@ -1028,7 +1058,7 @@ func saveShape() (secureCreator, plainCreator string) {
 					die("key.Save: unrecognised branch")
 				}
 				call, ok := as.Rhs[0].(*ast.CallExpr)
-				if !ok || len(call.Args) != 1 || exprString(call.Args[0]) != "filePath" {
+				if !ok || len(call.Args) != 1 || exprString(call.Args[0]) != pathVar {
 					die("key.Save: unrecognised creator %s", exprString(as.Rhs[0]))
 				}
 				return exprString(call.Fun)
@@ -1040,23 +1070,44 @@ func saveShape() (secureCreator, plainCreator string) {
 			}
 			plainCreator = get(eb)
 		}
-		if rs, ok := st.(*ast.ReturnStmt); ok && strings.Contains(exprString(rs.Results[0]), "Encode(t.TOML())") {
-			encodePos = rs.Pos()
-		}
 	}
-	if secureCreator == "" || encodePos == 0 || encodePos < ifPos {
-		die("key.Save: shape not recognised (creator %q, encode after create: %v)", secureCreator, encodePos > ifPos)
-	}
-	// nothing else in the body may create or chmod a file
+	// the encoding is written after the creator returned; in the rename shape the rename comes after the encoding
+	nRename := 0
 	ast.Inspect(fd.Body, func(n ast.Node) bool {
-		if call, ok := n.(*ast.CallExpr); ok {
-			f := exprString(call.Fun)
-			if strings.HasPrefix(f, "os.") && f != plainCreator {
-				die("key.Save: unexpected call %s", f)
+		call, ok := n.(*ast.CallExpr)
+		if !ok {
+			return true
+		}
+		f := exprString(call.Fun)
+		switch {
+		case strings.HasSuffix(f, ".Encode") && exprString(call) == "toml.NewEncoder(fd).Encode(t.TOML())":
+			if encodePos != 0 {
+				die("key.Save: more than one Encode")
 			}
+			encodePos = call.Pos()
+		case f == "os.Rename":
+			if pathVar != "tmpPath" || len(call.Args) != 2 || exprString(call.Args[0]) != "tmpPath" || exprString(call.Args[1]) != "filePath" {
+				die("key.Save: unexpected %s", exprString(call))
+			}
+			nRename++
+			renamePos = call.Pos()
+		case f == "os.Remove":
+			if pathVar != "tmpPath" || len(call.Args) != 1 || exprString(call.Args[0]) != "tmpPath" {
+				die("key.Save: unexpected %s", exprString(call))
+			}
+		case strings.HasPrefix(f, "os.") && f != plainCreator:
+			// nothing else in the body may create, chmod, move or remove a file
+			die("key.Save: unexpected call %s", f)
 		}
 		return true
 	})
+	if secureCreator == "" || encodePos == 0 || encodePos < ifPos {
+		die("key.Save: shape not recognised (creator %q, encode after create: %v)", secureCreator, encodePos > ifPos)
+	}
+	renamed = pathVar == "tmpPath"
+	if renamed && (nRename != 1 || renamePos < encodePos) {
+		die("key.Save: writes to a temporary file but does not rename it over filePath exactly once after the encoding (%d renames)", nRename)
+	}
 	return
 }
 
@@ -1094,9 +1145,11 @@ func genSecrets() {
 
 	// ---- files
 	l.pf("/-- internal/fs.CreateSecureFile, statement by statement -/\ndef createSecureFileSteps : List String := %s\n", leanStrList(createSecureFileSteps()))
-	sc, pc := saveShape()
+	sc, pc, target, renamed := saveShape()
 	l.pf("/-- common/key.Save: creator used when secure = true / false; the TOML encoding is written after the creator returned -/\n")
 	l.pf("def saveSecureCreator : String := %s\ndef savePlainCreator : String := %s\n", leanStr(sc), leanStr(pc))
+	l.pf("/-- common/key.Save: the path the creator is applied to, and whether that file is renamed over `filePath` once the encoding\nis complete (the temporary file holds the same bytes as the target will: it is created by the same creator) -/\n")
+	l.pf("def saveWritesTo : String := %s\ndef saveRenamesOverTarget : Bool := %v\n", leanStr(target), renamed)
 
 	// Save call sites
 	type site struct{ fn, path, ty, secure string }
